@@ -61,7 +61,7 @@ pub fn gen_cfg(t: &mut Tape, profile: Profile) -> RunCfg {
     let downgrade = t.chance(1, 3);
     let mut id_burn = match t.weighted(&[6, 2, 1]) {
         0 => 0,
-        1 => 65535 - 12 + t.choose(24),
+        1 => 65535 - t.choose(10),
         _ => t.choose(70000),
     };
     let mut c = RunCfg {
@@ -174,7 +174,7 @@ pub fn gen_cfg(t: &mut Tape, profile: Profile) -> RunCfg {
             }
         }
         Profile::IdWrap => {
-            id_burn = 65535 - 16 + t.choose(24);
+            id_burn = if t.chance(1, 4) { 65535 - 16 + t.choose(24) } else { 65535 - t.choose(10) };
             c.w.pub1 = 20;
             c.w.pub2 = 12;
             c.w.sub = 8;
@@ -360,6 +360,22 @@ fn run_connection(conn: &mut Conn<'_, '_>, steps_left: &mut u32) -> ConnEnd {
             return ConnEnd::OutOfSteps;
         }
         *steps_left -= 1;
+        let burn_now = with(|w| {
+            let b = w.cfg.id_burn;
+            if (65000..=65535).contains(&b) && !w.burn_done {
+                let ep = w.epoch;
+                let inflight = w.reqs.iter().filter(|r| r.epoch == ep && !r.invalidated && r.accept == Accept::Accepted && r.qos > 0 && r.id.is_some() && !matches!(r.phase, Phase::Done(_))).count();
+                if inflight >= 1 && w.tape.chance(1, 3) {
+                    w.burn_done = true;
+                    w.probe("identifier_counter_wrapped_with_ops_in_flight");
+                    return Some(b);
+                }
+            }
+            None
+        });
+        if let Some(b) = burn_now {
+            conn.verif_burn_packet_ids(b);
+        }
         let step = with(pick_step);
         let mut res: Option<Res> = None;
         let mut was_disconnect = false;
@@ -498,6 +514,9 @@ fn benign_drain(conn: &mut Conn<'_, '_>) -> bool {
         let inbound = w.bmsgs.iter().filter(|m| m.state != 2).count() + w.events.len();
         let p = (pending + owed + inbound) as u64;
         w.probe("drain_started");
+        if p > 0 {
+            w.probe("drain_with_pending");
+        }
         w.log(|| format!("---- benign continuation starts, P = {p}"));
         (p, w.conns[cur].bytes_moved, (p + 2) * (w.cfg.tx_len as u64 + w.cfg.rx_len as u64 + 16))
     });
@@ -727,7 +746,10 @@ pub fn scenario_general(session: &mut Session<'_>) {
         match do_connect(session, true) {
             ConnectOutcome::Failed(_) => continue,
             ConnectOutcome::Up(mut conn) => {
-                if burn > 0 && conn.connect_event() == minimq::ConnectEvent::Connected {
+                // identifier counter: either start next to the 16-bit wrap, or (burn in
+                // 65000..=65535) jump almost a full cycle in the middle of the connection so that
+                // new identifiers land on those of operations still in flight
+                if burn > 0 && !(65000..=65535).contains(&burn) && conn.connect_event() == minimq::ConnectEvent::Connected {
                     conn.verif_burn_packet_ids(burn);
                     with(|w| w.probe("identifier_counter_advanced"));
                 }
